@@ -106,7 +106,7 @@ func getReturns(last *token, p *parser) *token {
 			p.Advance(",")
 		}
 		p.Advance(")")
-	} else if p.Token.Symbol != ")" && p.Token.Symbol != "," && p.Token.Symbol != "{" && p.Token.Symbol != "}" && p.Token.Symbol != ";" && p.Token.Symbol != "(eof)" && p.Token.Pos.Line == last.Pos.Line {
+	} else if p.Token.Symbol != ")" && p.Token.Symbol != "," && p.Token.Symbol != "{" && p.Token.Symbol != "}" && p.Token.Symbol != ";" && p.Token.Symbol != "=" && p.Token.Symbol != "(eof)" && p.Token.Pos.Line == last.Pos.Line {
 		returns.Append(getType(p))
 	}
 	return returns
